@@ -52,6 +52,17 @@ type Case struct {
 	N       int     `json:"n,omitempty"`       // goroutines (stress)
 	Rounds  int     `json:"rounds,omitempty"`
 	EType   int32   `json:"etype,omitempty"`
+	Names   int     `json:"names,omitempty"` // which pair of client names and of service names the indices 0/1 stand for (see namePairs)
+}
+
+// namePairs: what client 0 / client 1 and service 0 / service 1 are called. The pairs differ in ways a cache key
+// must not ignore: the last character, letter case, one being a prefix of the other, a trailing component.
+var namePairs = []struct{ c0, c1, s0, s1 []string }{
+	{[]string{"client0"}, []string{"client1"}, []string{"svc", "host0"}, []string{"svc", "host1"}},
+	{[]string{"alice"}, []string{"Alice"}, []string{"HTTP", "web.example.com"}, []string{"http", "web.example.com"}},
+	{[]string{"alice"}, []string{"alice2"}, []string{"HTTP", "web"}, []string{"HTTP", "web.example.com"}},
+	{[]string{"alice"}, []string{"alice", "admin"}, []string{"HTTP", "web"}, []string{"host", "web"}},
+	{[]string{"b", "alice"}, []string{"a", "alice"}, []string{"HTTP", "web"}, []string{"HTTP", "web", "x"}},
 }
 
 type rec struct {
@@ -65,10 +76,21 @@ var yieldMu sync.Mutex // the yield hook is process-global: sched-mode cases run
 
 func auth(base time.Time, c Case, o Op) (types.PrincipalName, types.Authenticator) {
 	ct := base.Add(time.Duration(c.TOffUs[o.T]) * time.Microsecond).UTC()
+	np := namePairs[c.Names%len(namePairs)]
+	cn, sv := np.c0, np.s0
+	if o.C != 0 {
+		cn = np.c1
+	}
+	if o.S != 0 {
+		sv = np.s1
+	}
+	if o.C > 1 || o.S > 1 {
+		cn, sv = []string{fmt.Sprintf("client%d", o.C)}, []string{"svc", fmt.Sprintf("host%d", o.S)}
+	}
 	a := types.Authenticator{AVNO: 5, CRealm: "EXAMPLE.COM",
-		CName: types.PrincipalName{NameType: 1, NameString: []string{fmt.Sprintf("client%d", o.C)}},
+		CName: types.PrincipalName{NameType: 1, NameString: append([]string{}, cn...)},
 		CTime: ct.Truncate(time.Second), Cusec: ct.Nanosecond() / 1000}
-	sn := types.PrincipalName{NameType: 2, NameString: []string{"svc", fmt.Sprintf("host%d", o.S)}}
+	sn := types.PrincipalName{NameType: 2, NameString: append([]string{}, sv...)}
 	return sn, a
 }
 
@@ -403,7 +425,7 @@ func hasRepresentation(ops ...[]Op) bool {
 func drawTimed(t *rapid.T) Case {
 	const skew = 400
 	offs := []int{}
-	c := Case{Mode: "timed", SkewMs: skew}
+	c := Case{Mode: "timed", SkewMs: skew, Names: rapid.IntRange(0, len(namePairs)-1).Draw(t, "names")}
 	for i, n := 0, rapid.IntRange(2, 4).Draw(t, "timestamps"); i < n; i++ {
 		off := rapid.SampledFrom([]int{-300, -200, -100, 0, 0, 100, 200, 320}).Draw(t, "ctime-off-ms")
 		offs = append(offs, off)
@@ -484,7 +506,7 @@ func TestProp(t *testing.T) {
 	}
 	gen(nil)
 	evid.Parallel(len(hists), 16, func(i int) {
-		c := Case{Mode: "seq", SkewMs: 300000, TOffUs: []int64{0, 1}, Pre: hists[i]}
+		c := Case{Mode: "seq", SkewMs: 300000, TOffUs: []int64{0, 1}, Pre: hists[i], Names: (i + int(r.Seed())) % len(namePairs)}
 		nt := ""
 		if hasRepresentation(c.Pre) {
 			nt = ntKey(c)
